@@ -103,4 +103,27 @@ def opt(x: T) -> Optional[T]:
     return x if x else None
 
 
+def use(x: object) -> None:
+    return None
+
+
+def boom() -> None:
+    raise ValueError("boom")
+
+
+_flip = [False]
+
+
+def may_raise() -> int:
+    _flip[0] = not _flip[0]
+    if _flip[0]:
+        raise ValueError("sometimes")
+    return 0
+
+
+def zero() -> int:
+    """An int the checker cannot constant-fold (loop counters start here)."""
+    return 0
+
+
 __all__ = [n for n in dir() if not n.startswith("_")]
